@@ -1,0 +1,16 @@
+//go:build verif
+
+// Export shims for the verification harness under /verif (build tag "verif" only), property C10.
+package endpoints
+
+import (
+	"istio.io/istio/pilot/pkg/model"
+	"istio.io/istio/pkg/config"
+)
+
+// VerifCheckMtlsEnabled exposes newMtlsChecker(...).checkMtlsEnabled (client-side automatic mTLS decision).
+func VerifCheckMtlsEnabled(push *model.PushContext, authnPolicies model.PeerAuthnPolicies, svcPort int,
+	dr *config.Config, subset string, ep *model.IstioEndpoint, isWaypoint bool,
+) bool {
+	return newMtlsChecker(push, authnPolicies, svcPort, dr, subset).checkMtlsEnabled(ep, isWaypoint)
+}
